@@ -168,7 +168,11 @@ def oracle_val(case, gd, ld, stats):
             extra = len(seen) + len(unh) + len(drops) - int(gd.get('produced', '0'))
             if extra not in (0, down_c):
                 return 'conservation: read + failed sends + refused by the closed subscriber != produced'
-    if mode == 'hot' and len(unh) > 1:
+    # scen=early on ToChannel: the teardown (close of the channel) ran before ToChannel's goroutine subscribed the source; until that
+    # goroutine has registered the fresh subscription (AddUnsubscribable on the disposed composite unsubscribes it at once) the source is
+    # live, and a short hot script can be pushed entirely inside that window: every one of its sends then fails (the listed ToChannel.ch
+    # finding; conservation is checked above). Elsewhere at most the one send in flight at the close can fail.
+    if mode == 'hot' and len(unh) > 1 and not (op == 'ToChannel' and scen == 'early'):
         return 'failed-sends: more than one send failed although the source was cut before the close'
     return None
 
